@@ -57,13 +57,19 @@ def run_mc(ctx, module, constants, properties=(), invariants=(), view="View", wo
     if invariants:
         cfg += "INVARIANT " + " ".join(invariants) + "\n"
     cfg += "CHECK_DEADLOCK FALSE\n"
-    res = tlc(ctx.work, module, cfg, workers=workers, timeout=timeout, tag=tag or module)
+    res = tlc(ctx.work, module, cfg, workers=workers, timeout=timeout, tag=tag or module, extra=["-coverage", "1"])
     if not res.ok or res.errors:
         raise ToolError("design-level model checking failed for %s (a defect of the SPECIFICATION, "
                         "not of the code):\n%s" % (module, tlc_text(res, 80)))
+    # vacuity gate: every action of the model must have been taken (generated at least one state)
+    actions = {k: v for k, v in res.coverage.items() if k not in ("Init",)}
+    dead = [k for k, v in actions.items() if v[1] == 0]
+    if dead:
+        raise ToolError("vacuity gate: actions never taken in %s: %s" % (module, dead))
     ctx.design.append({"module": module, "constants": constants, "properties": list(properties),
                        "invariants": list(invariants), "distinct_states": res.distinct,
-                       "transitions": res.generated, "depth": res.depth, "wall_s": round(res.wall, 1)})
+                       "transitions": res.generated, "depth": res.depth, "wall_s": round(res.wall, 1),
+                       "action_coverage_distinct_total": actions})
     ctx.states += res.distinct
     ctx.transitions += res.generated
     log("MC %s %s: %d distinct states, %d transitions, %.1fs" % (module, tag or "", res.distinct,
